@@ -43,7 +43,11 @@ Definition jidx_ok (a : astate) : bool :=
           (map_to_list (a_jidx a)).
 Definition trig_stale (a : astate) (o : op) : bool :=
   match o with
-  | RevertToSnapshot _ => match astep_opt a o with Some (_, a') => negb (jidx_ok a') | None => false end
+  | RevertToSnapshot id =>
+      match astep_opt a o with
+      | Some (_, a') => negb (jidx_ok a')
+      | None => match find_rev id (a_revs a) 0 with Some _ => true | None => false end   (* panic inside the revert *)
+      end
   | _ => false
   end.
 
@@ -170,3 +174,33 @@ Definition flat2 (l : list (nat * nat)) : list Z :=
   flat_map (fun '(a, b) => [Z.of_nat a; Z.of_nat b]) l.
 Definition flat3 (l : list (nat * nat * nat)) : list Z :=
   flat_map (fun '(a, b, c) => [Z.of_nat a; Z.of_nat b; Z.of_nat c]) l.
+
+(* ---- the guard of the proved bisimulation ------------------------------------------------ *)
+(* operations for which C16_bisim is proved; the others (code, account re-creation, logs, access
+   list, Finalise) are covered by the three-way correspondence only *)
+Definition core_op (o : op) : bool :=
+  match o with
+  | SubBalance _ _ | AddBalance _ _ | GetBalance _ | GetNonce _ | SetNonce _ _
+  | AddRefund _ | SubRefund _ | GetRefund
+  | GetCommittedState _ _ | GetState _ _ | SetState _ _ _
+  | Suicide _ | HasSuicided _ | Exist _ | Empty _
+  | Snapshot | RevertToSnapshot _ => true
+  | _ => false
+  end.
+(* a revert that the adapter survives with its dirties index intact (complement of
+   C16.stale_dirty_index, which also covers the panic inside such a revert) *)
+Definition revert_fine (a : astate) (o : op) : bool :=
+  match o with
+  | RevertToSnapshot id =>
+      match find_rev id (a_revs a) 0 with
+      | None => true
+      | Some _ => match astep_opt a o with Some (_, a') => jidx_ok a' | None => false end
+      end
+  | _ => true
+  end.
+Definition pstep_ok (a : astate) (o : op) : bool := step_ok a o && core_op o && revert_fine a o.
+Fixpoint pguardedb (a : astate) (ops : list op) : bool :=
+  match ops with
+  | [] => true
+  | o :: rest => pstep_ok a o && pguardedb (astep a o).2 rest
+  end.
